@@ -3,6 +3,7 @@ package nat
 import (
 	"context"
 	"encoding/binary"
+	"errors"
 	"fmt"
 	"net"
 	"os"
@@ -567,21 +568,28 @@ func (m *Manager) DeallocateNAT(privateIP net.IP) error {
 	m.poolMu.Lock()
 	defer m.poolMu.Unlock()
 
-	m.allocationMu.Lock()
+	m.allocationMu.RLock()
 	allocation, ok := m.allocations[privKey]
+	m.allocationMu.RUnlock()
 	if !ok {
-		m.allocationMu.Unlock()
 		return nil // Not allocated
 	}
-	delete(m.allocations, privKey)
-	m.allocationMu.Unlock()
 
-	// Remove from eBPF map
+	// Remove from eBPF map first. While the kernel entry exists nat44 keeps translating the
+	// subscriber's traffic with this block, so if it cannot be removed the block must stay
+	// allocated: freeing it would hand it to the next subscriber while it is still in use.
+	// The caller gets the error and can release again.
 	if m.subscriberNAT != nil {
-		if err := m.subscriberNAT.Delete(&privKey); err != nil {
+		if err := m.subscriberNAT.Delete(&privKey); err != nil && !errors.Is(err, ebpf.ErrKeyNotExist) {
 			m.logger.Warn("Failed to delete subscriber NAT entry", zap.Error(err))
+			return fmt.Errorf("failed to delete subscriber NAT entry: %w", err)
 		}
 	}
+
+	// Only poolMu holders add or remove allocations, so the entry read above is still there.
+	m.allocationMu.Lock()
+	delete(m.allocations, privKey)
+	m.allocationMu.Unlock()
 
 	// Remove the sessions, reverse entries and EIM mappings the subscriber leaves behind.
 	// nat44.c reuses them without looking at the subscriber's current block, so they must
